@@ -67,6 +67,7 @@ Lemma sys_read_bits o want : wobj (fst (sys_read o want)) = wobj o /\ o_evR (fst
 Proof.
   unfold sys_read.
   destruct (o_closed o || _); [cbn; auto|].
+  destruct (match o_kind o with KDead => true | _ => false end); [cbn; auto|].
   destruct (match o_kind o with KLsn => true | _ => false end); [destruct (0 <? e_rq o); cbn; auto|].
   destruct (0 <? e_rq o); [cbn; auto|].
   destruct (e_rst o); [cbn; auto|].
@@ -166,7 +167,7 @@ Proof.
   destruct (o_evW o) eqn:E; [|reflexivity].
   destruct (del_interest s i o true) as [s1 o1] eqn:Ed.
   destruct (del_interest_spec _ _ _ _ _ _ Ed) as (A & B & C & D & _).
-  rewrite (on_event_gap s1 i o o1 true err) by (rewrite A; exact Hl).
+  rewrite (on_event_gap s1 i o o1 true _) by (rewrite A; exact Hl).
   rewrite (gap_tables s s1 A B C). lia.
 Qed.
 
@@ -208,7 +209,7 @@ Proof.
     destruct (o_evR ob) eqn:E; [|cbn; apply gap_add_log].
     destruct (del_interest (add_log s (LCancel o false)) o ob false) as [s1 o1] eqn:Ed.
     destruct (del_interest_spec _ _ _ _ _ _ Ed) as (A & B & C & D & _).
-    cbn [fst]. rewrite (on_event_gap s1 o ob o1 false xCancelled) by (rewrite A; exact Hl).
+    cbn [fst]. rewrite (on_event_gap s1 o ob o1 false _) by (rewrite A; exact Hl).
     rewrite (gap_tables (add_log s (LCancel o false)) s1 A B C). rewrite gap_add_log. lia.
   - (* AClose *)
     destruct (lookup o (l_objs s)) as [ob|] eqn:Hl; [|reflexivity].
@@ -305,7 +306,7 @@ Proof.
   - rewrite gap_set_disp. exact H1.
   - change (l_objs s1) with (l_objs s). destruct (lookup i (l_objs s)) as [ob|] eqn:Hl; [|exact H1].
     rewrite gap_set_obj. change (l_objs s1) with (l_objs s). rewrite Hl.
-    destruct p; [| destruct (o_kind ob) | |]; unfold wobj; cbn; lia.
+    destruct p; [| destruct (o_kind ob) | | |]; unfold wobj; cbn; lia.
   - reflexivity.
   - rewrite exec_gap. exact H1.
   - rewrite exec_gap. exact H1.
@@ -439,11 +440,11 @@ Qed.
 
 (* Cancel completes an in-flight read exactly once, with the cancellation error *)
 Theorem cancel_completes_read s i o p :
-  lookup i (l_objs s) = Some o -> o_evR o = true -> o_rd o = Some p ->
+  lookup i (l_objs s) = Some o -> o_evR o = true -> o_rd o = Some p -> ctl_ok o = true ->
   snd (do_action s (ACancel i)) = [IInvoke (op_cb p) xCancelled (op_sofar p) false; ICancelWrites i] /\
   exists o', lookup i (l_objs (fst (do_action s (ACancel i)))) = Some o' /\ o_evR o' = false.
 Proof.
-  intros Hl HR Hrd. cbn [do_action]. rewrite Hl, HR.
+  intros Hl HR Hrd Hk. cbn [do_action]. rewrite Hl, HR, Hk.
   unfold del_interest. rewrite HR. cbn [fst snd].
   unfold on_event. cbn [with_rd o_rd o_evR]. rewrite Hrd. change (negb (xCancelled =? xNil)) with true. cbv iota. cbn [fst snd app].
   split; [reflexivity|]. eexists. split; [apply lookup_set_obj|]. reflexivity.
